@@ -274,6 +274,18 @@ CHECKS += [
          technique="translation of the real decomposition rules to z3 Boolean/bit-vector terms; one validity query per claim covering all basis inputs"),
 ]
 
+CHECKS += [
+    dict(property_id="C23", category="proof", engine="E5 symbit + z3",
+         text="(a) Routing: stacks of up to 3 (thorough 4) synthetic transforms in a REAL CompilePipeline applied to batches of up to 3 tagged circuits; each transform "
+              "call splits its circuit into 0..2 circuits chosen by the solver (all fan-out patterns: into many, into none, uneven) and post-processes with SYMBOLIC integer "
+              "weights; executed results are symbolic. z3 proves that the real post-processing stack returns, per input circuit and in input order, the value of composing "
+              "the transforms by hand along the tag tree. (b) List API: every history of up to 2 (thorough 3) operations insert / insert of a transform carrying an expand "
+              "transform / pop / append / add_marker / remove_marker with solver-chosen indices -4..4, followed by all slices, indexing, + and *, agrees with a Python list "
+              "model; markers follow a boundary model (level = number of transforms before the marker).",
+         note="Trusted base: z3, vf.symbit. Outside: cotransform cache / classical Jacobians of gradient transforms, qnode-level application, final (informative) transforms.",
+         technique="lifted execution of the real CompilePipeline on z3 integer terms (path forks decided by the solver); z3 validity queries per routed result"),
+]
+
 _NOT_BUILT = "claimed in DESIGN.md §4 but its solver-based check is not built yet in this tree"
 NOT_APPLICABLE_REASONS = {
     "C04": "equality/hash: Python hash() of concrete payloads and tolerance-based allclose relations; no exact relation a solver can decide",
